@@ -80,4 +80,24 @@ func genC15(g *G) {
 		}
 		g.Add(rawtextCase(s, g.R.Bool(), g.R.Bool()))
 	}
+	// every kind of rune as the neighbour of a joined line break: the rule looks at whole characters, so a rune whose
+	// code point (or one of whose UTF-8 bytes) merely resembles '<', '>', NUL or a whitespace byte is an ordinary character.
+	// quick: all runes below U+0800 and, above, those whose low byte is one of the special bytes plus every 97th;
+	// thorough: every rune of the BMP and a sample of the astral planes.
+	special := map[byte]bool{0: true, '<': true, '>': true, ' ': true, '\t': true, '\r': true, '\n': true, 0x85: true, 0xa0: true}
+	for r := rune(0x80); r < 0x30000; r++ {
+		if r >= 0xd800 && r < 0xe000 {
+			continue
+		}
+		if r >= 0x10000 && r%251 != 0 {
+			continue
+		}
+		if g.Tier != "thorough" && r >= 0x800 && !special[byte(r)] && r%97 != 0 {
+			continue
+		}
+		e := []byte(string(r))
+		g.Add(rawtextCase(append(append([]byte("a\n  "), e...), 'b'), false, false))
+		g.Add(rawtextCase(append(append(append([]byte{}, e...), "\r\n"...), e...), r%2 == 0, r%3 == 0))
+		g.Add(rawtextCase(append(append([]byte("x"), e...), " \n c"...), false, false))
+	}
 }
